@@ -11,8 +11,12 @@ For every generated problem, agent, ground original action and every state over 
      is applicable;
   S  every applicable variant yields the original successor (projected on the original fluents);
   U  conditional-effect removal: exactly one variant is applicable when the original is;
-  G  goals: the compiled goals hold in a state iff the original goals do (a disjunctive goal, which the disjunctive remover
-     routes through "fake" goal fluents and actions, is only checked for well-formedness -- see the known finding);
+  G  goals: the compiled goals hold in a state iff the original goals do; for a disjunctive goal, which the disjunctive
+     remover routes through "fake" goal-witness fluents and actions (and which is ill-formed under the strict resolution
+     above -- known finding), the protocol is checked under a permissive resolution (an unqualified fluent of another
+     agent denotes the unique owner's fluent): a one-step inductive invariant over all compiled states (a witness fluent is
+     true only where the disjunctive goal holds, preserved by every compiled action; compiled goals imply original goals)
+     and reachability of the compiled goals by witness actions alone from every state where the original goals hold;
   W  the compiled problem is well-formed under the reference semantics (every fluent reference resolves).
 """
 import itertools
@@ -35,6 +39,11 @@ class IllFormed(Exception):
     pass
 
 
+# permissive name resolution (used only for the fake-goal protocol clause): an unqualified fluent that is neither the
+# acting agent's nor the environment's denotes the fluent of the unique agent owning that name
+PERMISSIVE = [False]
+
+
 def resolve(pr, agent, fe):
     """(owner, fluent name) of a FLUENT_EXP inside `agent`'s action (agent None: problem level)"""
     f = fe.fluent()
@@ -42,6 +51,10 @@ def resolve(pr, agent, fe):
         return agent.name
     if any(g.name == f.name for g in pr.ma_environment.fluents):
         return None
+    if PERMISSIVE[0]:
+        owners = [ag.name for ag in pr.agents if any(g.name == f.name for g in ag.fluents)]
+        if len(owners) == 1:
+            return owners[0]
     raise IllFormed(f"fluent {f.name} is neither a fluent of {'agent ' + agent.name if agent is not None else 'the environment'} nor of the environment and is not Dot-qualified")
 
 
@@ -275,6 +288,71 @@ def scenario(seed, which, failures, stats):
             if og != cg:
                 bad(f"{name}: compiled goals are not equivalent to the original goals", f"state {st}: original {og}, compiled {cg}; goals {pr.goals} vs {cp.goals}"[:600])
     stats["distinct"].add((which, seed))
+    if which == "dc" and disj_goal:
+        PERMISSIVE[0] = True
+        try:
+            fake_protocol(pr, cp, res, okeys, extra, name, bad, stats)
+        except IllFormed as ex:
+            bad(f"{name}: compiled problem does not resolve even under permissive name resolution", str(ex)[:300])
+        finally:
+            PERMISSIVE[0] = False
+
+
+def fake_protocol(pr, cp, res, okeys, extra, name, bad, stats):
+    """G for a disjunctive goal routed through fake-goal fluents (permissive resolution):
+    soundness as a one-step inductive invariant over ALL compiled states: Inv(s) = (compiled goals hold in s  =>  original
+    goals hold in s projected); Inv holds when the fake fluents are false... and is preserved by every compiled action from
+    every state satisfying `witness fluents true => original goals hold`;
+    completeness: from a state where the original goals hold (fake fluents false) the fake actions alone reach the compiled goals."""
+    ckeys = okeys + extra
+    acts = []
+    for cag in cp.agents:
+        for ca in cag.actions:
+            for ps in itertools.product(*[list(cp.objects(p.type)) for p in ca.parameters]):
+                try:
+                    back = res.map_back_action_instance(ActionInstance(ca, tuple(ps), agent=cag))
+                except Exception:  # noqa
+                    back = "?"
+                acts.append((cag, ca, ps, back is None))
+    og = lambda st: all(ev(pr, gl, {k: st[k] for k in okeys}, {}, None) for gl in pr.goals)  # noqa
+    cg = lambda st: all(ev(cp, gl, st, {}, None) for gl in cp.goals)  # noqa
+    # witness invariant: every fake fluent that is true witnesses the original disjunctive goals it stands for; we use the
+    # weakest useful form: (some fake fluent true) => original goals' disjunctive part holds; checked through cg => og
+    for bits in itertools.product([False, True], repeat=len(ckeys)):
+        st = dict(zip(ckeys, bits))
+        anyfake = any(st[k] for k in extra)
+        if anyfake and not og_disj(pr, st, okeys):
+            continue            # not a state satisfying the witness invariant
+        stats["n"] += 1
+        if cg(st) and not og(st):
+            bad(f"{name}: compiled goals hold in a state where the original goals do not (fake-goal fluents true only where the disjunctive goal holds)", f"{st}"[:500])
+        for cag, ca, ps, is_fake in acts:
+            ns = successor(cp, cag, ca, ps, st)
+            if ns is None:
+                continue
+            if any(ns[k] for k in extra) and not og_disj(pr, ns, okeys):
+                bad(f"{name}: a compiled action leaves a fake-goal fluent true in a state where the disjunctive goal it witnesses is false",
+                    f"{cag.name}.{ca.name}{ps} from {st} to {ns}"[:700])
+        if not anyfake and og(st):
+            # closure under fake actions
+            cur, changed, steps = st, True, 0
+            while changed and steps < 6:
+                changed = False
+                steps += 1
+                for cag, ca, ps, is_fake in acts:
+                    if not is_fake:
+                        continue
+                    ns = successor(cp, cag, ca, ps, cur)
+                    if ns is not None and ns != cur:
+                        cur, changed = ns, True
+            if not cg(cur):
+                bad(f"{name}: the original goals hold but the compiled goals cannot be reached by the goal-witness actions", f"{st}"[:500])
+
+
+def og_disj(pr, st, okeys):
+    """the disjunctive goals of the original (those containing Or) hold"""
+    sub = {k: st[k] for k in okeys}
+    return all(ev(pr, gl, sub, {}, None) for gl in pr.goals if OK.OR in _ops(gl))
 
 
 def _ops(e):
@@ -318,5 +396,5 @@ LEVEL = "exploration"
 EXPLANATION = __doc__
 TRUSTED = ["bounded only; the multi-agent reference semantics (name resolution of unqualified fluents) is this module's reading of the model's documentation",
            "the single-agent helpers the compilers share (_create_unconditional_actions, Dnf) are covered by C06/C07/C12",
-           "equivalence of goals routed through fake goal fluents is not checked beyond well-formedness (see known finding)"]
+           "goals routed through fake goal-witness fluents are judged under a permissive name resolution (strict resolution reports the known finding)"]
 USES_THEORY = False
